@@ -70,8 +70,7 @@ Proof. exact fix_inputs_eval. Qed.
 (* non-vacuity: a 4-step pipeline with a bare-name inner frame meets the premises *)
 Example C01_nonvacuous :
   let L i := Some {| te := Leaf i true; mbox := None |} in
-  let w := {| pipeline := [mk_step (FObj 1 11) (L 0); mk_step (FStr 2) (L 1); mk_step (FObj 3 33) (L 2); mk_step (FObj 4 44) None];
-              attrs := [] |} in
+  let w := (mk_wcs [mk_step (FObj 1 11) (L 0); mk_step (FStr 2) (L 1); mk_step (FObj 3 33) (L 2); mk_step (FObj 4 44) None] []) in
   wf w /\ m_get_transform w (FStr 1) (FObj 3 33) =
           Ok (Some {| te := Pipe (Leaf 0 true) (Leaf 1 true); mbox := None |}) /\
   m_get_transform w (FObj 4 44) (FStr 2) =
